@@ -14,6 +14,7 @@ import (
 // (lines "tag|args|old outputs") on the current implementation.  Only the inputs are taken from
 // the file; outputs are observed afresh.
 func TestCorpus(t *testing.T) {
+	corpusT = t
 	id := os.Getenv("VERIF_PROP")
 	dir := os.Getenv("VERIF_CORPUS")
 	if dir == "" {
